@@ -207,6 +207,14 @@ func (j *cacheJanitor[MetadataT]) evict(maxCacheBytes int64) {
 
 		lock := j.cacheFns.getLock(candidate.key)
 		if lock.TryLock() {
+			// The entry may have been replaced since the scan above: what is stored under the key now is
+			// the most recently used entry of all, not the one that was chosen.
+			if current, ok := j.cacheFns.getMetadata(candidate.key); !ok || current != candidate.meta {
+				lock.Unlock()
+				slog.Info("Cache entry was replaced since it was chosen for eviction, keeping it", "key", candidate.key.Hex)
+				continue
+			}
+
 			slog.Info("Evicting cache entry", "key", candidate.key.Hex, "size", candidate.meta.Size, "last_access", candidate.meta.LastAccess)
 
 			if err := j.cacheFns.removeEntry(candidate.key); err != nil {
